@@ -339,7 +339,7 @@ func TestVerifC09(t *testing.T) {
 	rapid.Check(t, func(rt *rapid.T) {
 		c := genC09(rt)
 		v, nt, inc := runC09(c)
-		if inc {
+		if inc || (v != nil && vFlapsSinceMark() > 0) {
 			col.Inconclusive()
 			return
 		}
